@@ -14,7 +14,7 @@ RULE = ('1-3 original bundles (same source with different timestamp / sequence n
         'says which originals are complete. Non-trivial: at least two originals interleaved, or out-of-order / duplicated arrival; '
         'distinct = digest of (originals, arrival order).')
 COMPONENTS = bc.COMPONENTS
-PROBES = ('arr.out_of_order', 'arr.duplicate', 'arr.dup_after_complete', 'arr.interleaved', 'cut.overlapping', 'cut.uneven', 'fault.drop', 'done.reassembled',
+PROBES = ('cut.whole_payload_fragment', 'arr.out_of_order', 'arr.duplicate', 'arr.dup_after_complete', 'arr.interleaved', 'cut.overlapping', 'cut.uneven', 'fault.drop', 'done.reassembled',
           'orig.same_source', 'orig.same_time')
 ASSUMPTIONS = ['fragments of one original agree on the total length', 'the code resets CRC types on the synthesized bundle: only payload and extension blocks are compared']
 CHUNK = 25
@@ -28,8 +28,14 @@ def gen(ch, tier):
     for oix in range(norig):
         plen = ch.choice('plen', (2, 7, 24, 100, 256, 300))
         npieces = min(plen, 2 + ch.pick('np', 5))
-        style = ch.choice('style', ('uniform', 'uneven', 'overlap'))
-        if style == 'uniform':
+        style = ch.choice('style', ('uniform', 'uneven', 'overlap', 'uniform', 'uneven', 'overlap', 'whole'))
+        if style == 'whole':
+            # a fragment that by itself covers the whole payload (offset 0, length = total), alone or next to partial ones
+            pieces = [[0, plen]]
+            if plen > 1 and ch.coin('whole.more', 1, 2):
+                cut = 1 + ch.pick('cut', plen - 1)
+                pieces += [[0, cut], [cut, plen]]
+        elif style == 'uniform':
             step = -(-plen // npieces)
             pieces = [[start, min(plen, start + step)] for start in range(0, plen, step)]
         else:
@@ -187,6 +193,8 @@ def describe(run):
     styles = set(orig['style'] for orig in plan['origs'])
     if 'overlap' in styles:
         counters['cut.overlapping'] = 1
+    if any(orig['style'] == 'whole' for orig in plan['origs']):
+        counters['cut.whole_payload_fragment'] = 1
     if 'uneven' in styles:
         counters['cut.uneven'] = 1
     if plan['dropped']:
